@@ -58,6 +58,9 @@ def curve_eval(ctx, p, mult, rational, span, clamped, samples):
     U, inner, n = shapes.make_kv(ctx, p, mult, clamped=clamped, normalized=clamped)
     lo, hi = U[p], U[n]
     u = shapes.param_in(ctx, 'u', lo, hi)
+    if not clamped:
+        # linalg.linspace identifies start and stop when they are within 1e-7 (tolerance executed as written, A1)
+        ctx.assume(ctx.gt(hi - lo, Fraction(1, 10 ** 7)))
     if span == 'binsearch':
         shapes.separated_knots(ctx, U, SPAN_TOL)
         ctx.assume(ctx.sep(u, hi, SPAN_TOL))
@@ -98,6 +101,22 @@ def curve_eval(ctx, p, mult, rational, span, clamped, samples):
             ctx.check_eq_vec('grid[%d]' % i, pts[i], C(t))
         ctx.check_eq_vec('grid.first=P0', pts[0], P[0])
         ctx.check_eq_vec('grid.last=Pn', pts[-1], P[-1])
+        # a descending range is a valid range too: the samples run from stop back to start
+        crv.evaluate(start=hi, stop=lo)
+        back = crv.evalpts
+        ctx.check_true('descending.size', len(back) == samples)
+        for i in range(samples):
+            ctx.check_eq_vec('descending[%d]' % i, back[i], C(hi - (hi - lo) * Fraction(i, samples - 1)))
+    else:
+        # unclamped, un-normalised knot vector: the default range is the domain [U[p], U[n]]
+        crv.sample_size = samples
+        pts = crv.evalpts
+        ctx.check_true('grid.size', len(pts) == samples, 'len(evalpts)=%d, sample_size=%d' % (len(pts), samples))
+        for i in range(samples):
+            t = lo + (hi - lo) * Fraction(i, samples - 1)
+            if rational:
+                ctx.assume_pos(spec.curve_point(p, U, [[w] for w in W], t)[0], 'L.weight_function_positive')
+            ctx.check_eq_vec('grid[%d]' % i, pts[i], C(t))
 
 
 def _surface_shapes(tier):
